@@ -13,7 +13,7 @@ REQUIRED_MONITORS = ["decomposition@SD_svalsvec", "pick@FDD_mpe(function, Hermit
 ALL_STATES = ["band clipped by grid start", "band clipped by grid end", "selected frequency between lines", "maximum at band edge candidate",
               "several peaks in band", "non-square spectrum", "2 channels", "8 channels"]
 REQUIRED_STATES = ["band clipped by grid end", "selected frequency between lines", "several peaks in band", "non-square spectrum", "array object refilled in place", "band below 0 Hz while the dominant line of the grid is at Nyquist", "EFDD with cm=2",
-                   "selected frequencies of integer type", "overlapping / repeated selections in one call", "EFDD extraction repeated with another DF1", "selections exactly on spectral lines"]
+                   "selected frequencies of integer type", "overlapping / repeated selections in one call", "EFDD extraction repeated with another DF1", "selections exactly on spectral lines", "more than 80 dB between first and last singular value"]
 RULE = ("spectral sequences: synthetic Hermitian (sums of rank-one bells with complex shapes + full-rank floor), half spectra from the 'cor' "
         "estimator, spectra of random responses through FDD / FDD_MS / EFDD; DF 1..15 line spacings, selected frequencies anywhere in the grid; "
         "postconditions on every SD_svalsvec and FDD_mpe call; non-trivial = band holds >= 3 lines and sigma1/sigma2 varies by > 1 % in it; "
@@ -57,12 +57,12 @@ def check_decomposition(ctx, SD, S_val, S_vec):
             ctx.fail("svd:values_not_sorted_nonneg_diagonal", f"line {k}: stored values {d} (off-diagonal max {off})")
             return
         U = S_vec[:, :, k].conj().T
-        if np.max(np.abs(U.conj().T @ U - np.eye(nr))) > 1e-9:
+        if not (np.max(np.abs(U.conj().T @ U - np.eye(nr))) <= 1e-9):
             ctx.fail("svd:vectors_not_unitary", f"line {k}: S_vec^H is not unitary")
             return
         s = np.linalg.svd(SD[:, :, k], compute_uv=False)
         rn = np.linalg.norm(U.conj().T @ SD[:, :, k], axis=1)[: len(s)]
-        if np.max(np.abs(rn - s)) > 1e-8 * s[0]:
+        if not (np.max(np.abs(rn - s)) <= 1e-8 * s[0]):
             ctx.fail("svd:vectors_not_singular_vectors", f"line {k}: rows of S_vec do not diagonalise the spectral matrix (row norms {rn[:3]} vs singular values {s[:3]})")
             return
         if np.max(np.abs(d[: len(s)] - s)) <= 1e-9 * s[0]:
@@ -189,7 +189,10 @@ def run_synth(ctx, rng):
         bell[-4:] = 50 * np.max(np.abs(S))
         S += np.conj(a)[:, None, None] * a[None, :, None] * bell[None, None, :]
     W = rng.standard_normal((nch, nch)) + 1j * rng.standard_normal((nch, nch))
-    S += (W @ W.conj().T)[:, :, None] * 10 ** rng.uniform(-4, -1) * np.max(np.abs(S)) * (1 + 0.5 * np.sin(np.arange(nf) * rng.uniform(0.1, 1)))[None, None, :]
+    floor = 10 ** rng.uniform(-4, -1) if rng.random() < 0.6 else 10 ** rng.uniform(-13, -4)  # very clean records: > 80 dB between the singular values
+    if floor < 1e-8:
+        ctx.state("more than 80 dB between first and last singular value")
+    S += (W @ W.conj().T)[:, :, None] * floor * np.max(np.abs(S)) * (1 + 0.5 * np.sin(np.arange(nf) * rng.uniform(0.1, 1)))[None, None, :]
     S *= 10 ** rng.uniform(-6, 6)
     Sc = S.copy()
     Sval, Svec = fdd.SD_svalsvec(S)
